@@ -354,10 +354,12 @@ fn transform_operation_as_f64(
     let new_rotation =
         (linear_inv * operation.rotation.map(|e| e as f64) * linear).map(|e| e.round() as i32);
 
-    // Check if `new_rotation` is an integer matrix
-    let recovered =
-        (linear * new_rotation.map(|e| e as f64) * linear_inv).map(|e| e.round() as i32);
-    if recovered != operation.rotation {
+    // Check if `linear_inv * rotation * linear` is an integer matrix, i.e. if the rounded matrix
+    // satisfies `linear * new_rotation == rotation * linear`. (Rounding the back-transformed
+    // matrix instead would also accept conjugates with fractional entries.)
+    let lhs = linear * new_rotation.map(|e| e as f64);
+    let rhs = operation.rotation.map(|e| e as f64) * linear;
+    if (lhs - rhs).iter().any(|e| e.abs() > 1e-8) {
         return None;
     }
 
